@@ -1,6 +1,6 @@
 (* Properties/C12.v — C12: keys never interfere; the order-preserving codec round-trips.
    This file contains only the property theorems (closed by [exact]) and non-vacuity examples. *)
-From ZV Require Import Common.Bytes Codec.Consts Codec.MemCmp Codec.Keys Codec.Proofs.
+From ZV Require Import Common.Bytes Codec.Consts Codec.MemCmp Codec.Keys Codec.RangeOps Codec.Proofs.
 Open Scope N_scope.
 
 (* ---------- (a) the memcomparable codec: byte strings ---------- *)
@@ -187,6 +187,66 @@ Theorem C12_coll_stop_no_overflow : forall dt t k,
   coll_stop_key dt t k = coll_base dt t k ++ [coll_start_sep + 1] /\ coll_start_sep + 1 < 256.
 Proof. exact coll_stop_spec. Qed.
 Print Assumptions C12_coll_stop_no_overflow.
+
+(* ---------- (c') range OPERATIONS: clear / full read of one collection, with the bound types the code passes ---------- *)
+(* the bound type of every function is read from the source (Consts.v, rtype_<file>_<func>); [xs] is any
+   population of well-formed keys of all types, [map encode_ekey xs] the engine's key space *)
+
+Theorem C12_hash_clear_exact : forall t k xs, no_sep t -> len16 k -> Forall wf_ekey xs ->
+  hash_clear_keys t k (map encode_ekey xs) = map encode_ekey (filter (is_member_of hash_type t k) xs).
+Proof. exact hash_clear_exact. Qed.
+Print Assumptions C12_hash_clear_exact.
+
+Theorem C12_hash_read_exact : forall t k xs, no_sep t -> len16 k -> Forall wf_ekey xs ->
+  hash_read_keys t k (map encode_ekey xs) = map encode_ekey (filter (is_member_of hash_type t k) xs).
+Proof. exact hash_read_exact. Qed.
+Print Assumptions C12_hash_read_exact.
+
+Theorem C12_set_clear_exact : forall t k xs, no_sep t -> len16 k -> Forall wf_ekey xs ->
+  set_clear_keys t k (map encode_ekey xs) = map encode_ekey (filter (is_member_of set_type t k) xs).
+Proof. exact set_clear_exact. Qed.
+Print Assumptions C12_set_clear_exact.
+
+Theorem C12_set_read_exact : forall t k xs, no_sep t -> len16 k -> Forall wf_ekey xs ->
+  set_read_keys t k (map encode_ekey xs) = map encode_ekey (filter (is_member_of set_type t k) xs).
+Proof. exact set_read_exact. Qed.
+Print Assumptions C12_set_read_exact.
+
+Theorem C12_bitmap_clear_exact : forall t k xs, no_sep t -> Forall wf_ekey xs ->
+  bitmap_clear_keys t k (map encode_ekey xs) = map encode_ekey (filter (is_bitmap_seg_of t k) xs).
+Proof. exact bitmap_clear_exact. Qed.
+Print Assumptions C12_bitmap_clear_exact.
+
+Theorem C12_list_clear_exact : forall t k head tail xs, no_sep t -> len16 k -> Forall wf_ekey xs ->
+  (0 <= head)%Z -> int64_ok head -> (0 <= tail)%Z -> int64_ok tail ->
+  list_clear_keys t k head tail (map encode_ekey xs) = map encode_ekey (filter (is_list_elem_of t k head tail) xs).
+Proof. exact list_clear_exact. Qed.
+Print Assumptions C12_list_clear_exact.
+
+Theorem C12_zset_clear_exact : forall t k xs, no_sep t -> Forall wf_ekey xs ->
+  zset_clear_score_keys t k (map encode_ekey xs) = map encode_ekey (filter (is_zscore_of t k) xs).
+Proof. exact zset_clear_score_keys_exact. Qed.
+Print Assumptions C12_zset_clear_exact.
+
+Theorem C12_zset_clear_member_keys : forall t k sc m, len16 t -> float_ok sc ->
+  zset_member_key_of_score_key t k (encode_ekey (KZScore t k sc m)) = Some (encode_ekey (KColl zset_type t k m)).
+Proof. exact zset_member_key_of_score_key_spec. Qed.
+Print Assumptions C12_zset_clear_member_keys.
+
+(* the element with the EMPTY sub-key is stored under the range's start key, so the left bound must be
+   closed: an iteration with an open left bound skips it, and a clear built on it leaves it behind *)
+Theorem C12_open_left_bound_misses_empty_member : forall dt t k,
+  in_range_t range_open (coll_start_key dt t k) (coll_stop_key dt t k) (encode_ekey (KColl dt t k [])) = false /\
+  in_range_t range_lopen (coll_start_key dt t k) (coll_stop_key dt t k) (encode_ekey (KColl dt t k [])) = false /\
+  in_range_t range_ropen (coll_start_key dt t k) (coll_stop_key dt t k) (encode_ekey (KColl dt t k [])) = true.
+Proof. exact open_left_bound_misses_empty_member. Qed.
+Print Assumptions C12_open_left_bound_misses_empty_member.
+
+Theorem C12_clear_with_open_bound_refuted : exists t k xs, no_sep t /\ len16 k /\ Forall wf_ekey xs /\
+  range_iter range_open (coll_start_key set_type t k) (coll_stop_key set_type t k) (map encode_ekey xs) <>
+  map encode_ekey (filter (is_member_of set_type t k) xs).
+Proof. exact clear_with_open_bound_refuted. Qed.
+Print Assumptions C12_clear_with_open_bound_refuted.
 
 (* ---------- the guards are the ones the code provides, and they are necessary ---------- *)
 
